@@ -15,10 +15,10 @@ PROPS = {
     'C07': dict(families=[], bounded='pvf.bounded.c07', level='other'),
     'C08': dict(families=[], bounded='pvf.bounded.c08', level='other'),
     'C09': dict(families=[], bounded='pvf.bounded.c09', level='other'),
-    'C10': dict(families=[], bounded='pvf.bounded.c10', level='other'),
-    'C11': dict(families=[], bounded='pvf.bounded.c11', level='other'),
+    'C10': dict(families=['context'], bounded='pvf.bounded.c10', level='other'),
+    'C11': dict(families=['context'], bounded='pvf.bounded.c11', level='other'),
     'C12': dict(families=['layout', 'normalize', 'strings'], bounded='pvf.bounded.c12', level='other'),
-    'C13': dict(families=['runpretty'], bounded='pvf.bounded.c13', level='other'),
+    'C13': dict(families=['runpretty', 'context'], bounded='pvf.bounded.c13', level='other'),
     'C14': dict(families=['runpretty'], bounded='pvf.bounded.c14', level='other'),
     'C15': dict(families=[], bounded='pvf.bounded.c15', level='other'),
     'C16': dict(families=[], bounded='pvf.bounded.c16', level='other'),
